@@ -273,7 +273,7 @@ class _HaysonRestable:
 
 def hayson_stage(ctx, prog):
     from props import C03
-    H = sym.explore_templates(ctx, _HaysonRestable, [dict(t, conc_numbers=True) for t in C03.hayson_templates(ctx)], prog, split_depth=4, budget_s=120 if ctx.quick() else 600)
+    H = sym.explore_templates(ctx, _HaysonRestable, [dict(t, conc_numbers=True) for t in C03.hayson_templates(ctx) if not t.get('dt_offset')], prog, split_depth=4, budget_s=120 if ctx.quick() else 600)
     sym.native_check(ctx, H)
     # second native pass: the decoded value through serde_json text and back
     extra = [{'kind': 'aux', 'ref': h, 'native_case': {'api': 'json_roundtrip', 'v': norm_native(h['native']['ok'])}} for h in H
